@@ -2,7 +2,7 @@ SPECIFICATION Spec
 CONSTANTS
  Flags = {}
  OpsA = 1
- Rel = FALSE
+ Mode = "plain"
 INVARIANT InvWrites
 INVARIANT InvPointer
 INVARIANT InvInstance
